@@ -484,6 +484,14 @@ def start_closure(ctx, rule='A5u'):
             if ok else ('no reachability closure from the start nodes: only what the floating root nodes derive is '
                         'removed, an underived derivation cycle (and the choices below it) stays in the graph'
                         if not closures else 'the complement of the closure is not removed')))
+    return ok
+
+
+def closure_subsumes(ctx, ok):
+    """When set_start_nodes removes the whole complement of the start nodes' closure, what its floating-root loop
+    removes is a subset of that: whether the loop threads its accumulators no longer matters for the result."""
+    return {f'{BASIC}.set_start_nodes': 'set_start_nodes removes everything the start nodes do not derive (A5u), '
+                                        'which contains whatever the floating-root loop finds'} if ok else {}
 
 
 def check(ctx):
@@ -493,12 +501,13 @@ def check(ctx):
     derive_shape(ctx)
     status_array_shape(ctx)
     loop_closure_every_level(ctx)
-    start_closure(ctx)
+    closure_ok = start_closure(ctx)
     # the graph algorithms memoise in caller-provided cache dictionaries: keys cover what the value depends on
     from ..rules import persist as _psg
     _psg.check_memo_functions(ctx, [f for f in ctx.prog.all_functions() if f.module.name.startswith('adsg_core.graph.')])
     guards.check_applied_unless_empty(ctx, [f for f in ctx.prog.all_functions() if f.module.name.startswith('adsg_core.graph.')])
-    guards.check_accumulators_threaded(ctx, [f for f in ctx.prog.all_functions() if f.module.name.startswith('adsg_core.graph.')])
+    guards.check_accumulators_threaded(ctx, [f for f in ctx.prog.all_functions() if f.module.name.startswith('adsg_core.graph.')],
+                                       subsumed=closure_subsumes(ctx, closure_ok))
     # the influence matrix (choice activation order) is derived from the graph and its start nodes: it is rebuilt
     # whenever set_influence_matrix runs, never kept from an earlier initialisation of the same object
     from ..rules import invalidate as _inv
@@ -520,8 +529,14 @@ VARIANTS = [
         "        removed_nodes.update(set(graph.nodes) - self._get_nodes_derived_from(start_nodes))\n")], expect='silent'),
     V('influence-matrix-kept-from-earlier-initialisation', 'graph/adsg.py',
       [("        try:\n            self._influence_matrix = InfluenceMatrix(self)\n        except ValueError:\n            pass\n", "        if self._influence_matrix is None:\n            try:\n                self._influence_matrix = InfluenceMatrix(self)\n            except ValueError:\n                pass\n")], key='always-reassigns'),
-    V('floating-roots-removed-independently', 'graph/adsg_basic.py',
-      [("                graph, floating_node, start_nodes, removed_edges=removed_edges, removed_nodes=removed_nodes)", "                graph, floating_node, start_nodes)")], key='A5acc'),
+    # since the F23 repair the complement of the start nodes' closure is removed anyway: not threading the accumulators
+    # of the floating-root loop no longer changes the result (seed C02-3 rebased: its demo passes) - must stay silent;
+    # together with the closure removed it must fire again
+    V('twin-floating-roots-removed-independently', 'graph/adsg_basic.py',
+      [("                graph, floating_node, start_nodes, removed_edges=removed_edges, removed_nodes=removed_nodes)", "                graph, floating_node, start_nodes)")], expect='silent'),
+    V('floating-roots-removed-independently-without-closure', 'graph/adsg_basic.py',
+      [("                graph, floating_node, start_nodes, removed_edges=removed_edges, removed_nodes=removed_nodes)", "                graph, floating_node, start_nodes)"),
+       ("        removed_nodes |= set(graph.nodes) - self._get_nodes_derived_from(start_nodes)\n", "")], key='A5acc'),
     V('single-incompatible-node-kept', 'graph/adsg.py',
       [("            if len(removed_nodes) > 0:\n                dsg = dsg.get_for_adjusted(removed_nodes=removed_nodes)", "            if len(removed_nodes) > 1:\n                dsg = dsg.get_for_adjusted(removed_nodes=removed_nodes)")], key='A5e'),
     V('floating-removal-needs-both', 'graph/adsg_basic.py',
